@@ -256,7 +256,11 @@ func (w *walker) step() {
 	// the objective value arrives after a first report without it (also when the run object is already gone)
 	for _, t := range p.Trials {
 		if dbNone[t.Name] {
-			add(1.5, sim.Action{Op: "metrics", Key: t.Name, V: w.val(true)})
+			wt := 1.5
+			if isES(t) {
+				wt = 0.3 // an early-stopped trial may wait long for its objective value (the window in which its job finishes first)
+			}
+			add(wt, sim.Action{Op: "metrics", Key: t.Name, V: w.val(true)})
 		}
 	}
 	if s.Cfg.ES {
